@@ -11,6 +11,7 @@ import (
 	"path/filepath"
 	"strings"
 
+	api "k8s.io/api/core/v1"
 	networking "k8s.io/api/networking/v1"
 	"sigs.k8s.io/controller-runtime/pkg/client"
 
@@ -219,6 +220,68 @@ func genAlias(rng *rand.Rand, i int) (string, interface{}, bool, error) {
 		map[string]interface{}{"host_alias": jv, "answers": jq}, shared, nil
 }
 
+// ---------------------------------------------------------------- CTcp
+
+func genTcp(rng *rand.Rand, i int) (string, interface{}, bool, error) {
+	var objs []client.Object
+	objs = append(objs, svcs("ns1", "svc1", "svc2", "svc3", "svc4")...)
+	keys := []string{"9000", "09000", "+9000", "9001", "009001", "9002", "x9", "90 00"}
+	values := []string{"ns1/svc1:80", "ns1/svc2:80:PROXY", "ns1/svc3:9000::PROXY-V1", "ns1/svc4:80", "ns1/missing:80", "ns1/svc1:81", ""}
+	valid := []string{"ns1/svc1:80", "ns1/svc2:80:PROXY", "ns1/svc3:9000::PROXY-V1", "ns1/svc4:80"}
+	svcOf := map[string]string{"ns1_svc1": "ns1/svc1:80", "ns1_svc2": "ns1/svc2:80:PROXY", "ns1_svc3": "ns1/svc3:9000::PROXY-V1", "ns1_svc4": "ns1/svc4:80"}
+	cm := &api.ConfigMap{}
+	cm.Namespace, cm.Name = "ingress-controller", "tcp-services"
+	cm.Data = map[string]string{}
+	perm := rng.Perm(len(values))
+	for j, n := 0, 1+rng.Intn(5); j < n; j++ {
+		// a valid value is used by one key at most, so that the service names the key
+		cm.Data[keys[rng.Intn(len(keys))]] = values[perm[j%len(perm)]]
+	}
+	used := map[string]int{}
+	for _, v := range cm.Data {
+		used[v]++
+	}
+	for k, v := range cm.Data {
+		if used[v] > 1 && v != "" {
+			delete(cm.Data, k)
+			used[v]--
+		}
+	}
+	objs = c06.Stamp(append(objs, cm))
+	r := c06.Run{Dir: filepath.Join(workdir, "corr"), Opts: c06.Opts{WatchWithoutClass: true, TCPConfigMap: "ingress-controller/tcp-services"}, Objs: objs,
+		Order: rng.Perm(len(objs)), ShuffleLists: i%2 == 1, Seed: int64(i)}
+	res, err := c06.Exec(r, universe, true)
+	if err != nil {
+		return "", nil, false, err
+	}
+	defer res.Pipeline.Close()
+	owner := map[int]string{}
+	for _, b := range res.Pipeline.Config().TCPBackends().BuildSortedItems() {
+		owner[b.Port] = svcOf[b.Name]
+	}
+	var queries []string
+	jq := map[string]string{}
+	for _, port := range []int{9000, 9001, 9002, 9} {
+		obs := "None"
+		if v, ok := owner[port]; ok {
+			obs = "(Some " + hx.Str(v) + ")"
+		}
+		queries = append(queries, hx.Tuple(hx.Z(int64(port)), obs))
+		jq[fmt.Sprint(port)] = obs
+	}
+	ports := map[string]int{}
+	dup := false
+	for k := range cm.Data {
+		t := strings.TrimLeft(strings.TrimPrefix(k, "+"), "0")
+		ports[t]++
+		if ports[t] > 1 {
+			dup = true
+		}
+	}
+	return fmt.Sprintf("CTcp @ID@ %s %s %s", coqAnn(cm.Data), coqStrs(valid), hx.List(queries)),
+		map[string]interface{}{"data": cm.Data, "owner_by_port": jq}, dup, nil
+}
+
 func correspondence2(o *hx.Opts, rng *rand.Rand, res *hx.Result, add func(kind, term string, js interface{}, nontrivial bool)) {
 	for i, n := 0, o.Count(200, 2000); i < n; i++ {
 		t, js, nt := genAlloc(rng)
@@ -241,5 +304,14 @@ func correspondence2(o *hx.Opts, rng *rand.Rand, res *hx.Result, add func(kind, 
 			continue
 		}
 		add("alias", t, js, nt)
+	}
+	for i, n := 0, o.Count(60, 600); i < n; i++ {
+		t, js, nt, err := genTcp(rng, i)
+		if err != nil {
+			res.Count("corr_tcp_error")
+			res.Fail(hx.Failure{Key: "C06/update-error", What: "a pipeline of the correspondence failed: " + err.Error(), Input: js})
+			continue
+		}
+		add("tcp", t, js, nt)
 	}
 }
